@@ -13,13 +13,14 @@ P: (1) two/three runs of asn1c on the same module (normal, `setarch -R` = ASLR o
 import os, re, glob, json, shutil, itertools, collections, platform
 from .. import build, core, genmod, cgen
 
-PROPOSED_FINDINGS = [
- {"id": "F90", "property": "C12", "status": "known",
-  "what": "asn1print drops the words DEFINED BY of the X.208 form 'ANY DEFINED BY field' (prints 'ANY field'), so the text printed by "
-          "asn1c -E for an accepted module (examples/rfc3280-PKIX1Explicit88.asn1, ...Implicit88.asn1) is rejected when re-fed",
-  "witness": {"module": "M DEFINITIONS ::= BEGIN T ::= SEQUENCE { algorithm OBJECT IDENTIFIER, parameters ANY DEFINED BY algorithm OPTIONAL } END",
-              "c_output": "syntax error, unexpected identifier, expecting '}'"},
-  "matcher": "the source contains 'ANY DEFINED BY' (X.208 syntax, outside the modern-syntax quantifier); -E text is not accepted"},
+PROPOSED_FINDINGS = []      # F90 ('ANY DEFINED BY' printed as 'ANY') is repaired: its witness and neighbours are directed cases below
+
+# former witness of F90 and its neighbourhood: (tag, module); each must be accepted, print to a fixpoint and keep the words DEFINED BY
+ANY_DEFINED_BY = [
+ ("F90-witness", "M DEFINITIONS ::= BEGIN T ::= SEQUENCE { algorithm OBJECT IDENTIFIER, parameters ANY DEFINED BY algorithm OPTIONAL } END"),
+ ("F90-mandatory", "M DEFINITIONS ::= BEGIN T ::= SEQUENCE { type INTEGER, value ANY DEFINED BY type } END"),
+ ("F90-tagged", "M DEFINITIONS ::= BEGIN T ::= SEQUENCE { type INTEGER, value [0] ANY DEFINED BY type, plain ANY OPTIONAL } END"),
+ ("F90-set", "M DEFINITIONS ::= BEGIN T ::= SET { id OBJECT IDENTIFIER, v [1] EXPLICIT ANY DEFINED BY id } U ::= ANY END"),
 ]
 
 OPTSETS = [("compound", ["-fcompound-names"]), ("default", []), ("wide-noper", ["-fwide-types", "-no-gen-PER", "-fcompound-names"]),
@@ -314,8 +315,7 @@ def run(ctx):
             if is_old_syntax(src, e1["err"]): cstat["old-syntax-skipped"] += 1; continue
             e2 = c.get("e2")
             if e2["rc"] != 0 or cgen.died(e2):
-                if "ANY DEFINED BY" in src: ctx.known(fmap["F90"]); cstat["known:F90"] += 1
-                else: fail("E-text-rejected", f"{name}: " + e2["err"].strip().split("\n")[-2 if e2['err'].count(chr(10)) > 1 else 0][:160], rp)
+                fail("E-text-rejected", f"{name}: " + e2["err"].strip().split("\n")[-2 if e2['err'].count(chr(10)) > 1 else 0][:160], rp)
                 continue
             if e2["out"] != e1["out"]: fail("E-not-fixpoint", f"{name}: " + first_diff(e1["out"], e2["out"]), rp); continue
             e3 = c["e3"]
@@ -323,13 +323,20 @@ def run(ctx):
             cstat["fixpoint"] += 1
             ctx.count_nontrivial(("corpus", name))
         ctx.cov["predicate"]["corpus"] = {"files": len(corpus), **dict(cstat)}
-        # witness of F90
-        w = os.path.join(root, "w90.asn1"); open(w, "w").write(fmap["F90"]["witness"]["module"])
-        e1 = E(asn1c, w)
-        if e1["rc"] == 0:
-            w2 = os.path.join(root, "w90p.asn1"); open(w2, "w").write(e1["out"])
-            if E(asn1c, w2)["rc"] != 0: ctx.known(fmap["F90"])
-            else: ctx.log("note: finding F90 no longer reproduces on its witness")
+        # former witness of F90 and neighbours: accepted, DEFINED BY kept, fixpoint
+        nany = 0
+        for tag, text in ANY_DEFINED_BY:
+            w = os.path.join(root, tag + ".asn1"); open(w, "w").write(text)
+            rp = {"module": text, "tag": tag}
+            e1 = E(asn1c, w)
+            if cgen.died(e1) or e1["rc"] != 0: fail("directed-rejected", f"{tag}: -E rc={e1['rc']}", rp); continue
+            if e1["out"].count("DEFINED BY") != text.count("DEFINED BY"): fail("E-drops-DEFINED-BY", f"{tag}: " + " ".join(e1["out"].split())[:160], rp); continue
+            w2 = os.path.join(root, tag + "-p.asn1"); open(w2, "w").write(e1["out"])
+            e2 = E(asn1c, w2)
+            if cgen.died(e2) or e2["rc"] != 0: fail("E-text-rejected", f"{tag}: " + e2["err"].strip().split("\n")[0][:160], rp); continue
+            if e2["out"] != e1["out"]: fail("E-not-fixpoint", f"{tag}: " + first_diff(e1["out"], e2["out"]), rp); continue
+            nany += 1; ctx.count_nontrivial(("any-defined-by", tag))
+        ctx.cov["predicate"]["any_defined_by"] = {"modules": len(ANY_DEFINED_BY), "fixpoint": nany}
     finally:
         shutil.rmtree(root, ignore_errors=True)
     ctx.cov["evaluations"] += len(gres) * 9 + len(pjobs) + len(corpus) * 3
